@@ -28,20 +28,21 @@ Inductive tag :=
   | UnknownParams | NotDefined | BothGiven | FirstConditional | EmptyModel
   (* fit *)
   | FitLength | MissingMethod | DataDimension | UnknownMethod | MethodNotString
-  | LsqNotImplemented | UnknownWeights | LsqFixedNotImplemented
+  | LsqNotImplemented | UnknownWeights | WeightsNonFinite | LsqFixedNotImplemented
   (* slicers *)
   | UnknownKwarg | ReferenceNotCallable | UnknownReference | ReferenceType | TooFewIntervals | NoIntervals
   (* highest density contour *)
-  | LimitsLength | DeltasLength | LimitSubscript | LimitIndex | LimitTuple | PdfNan
+  | LimitsLength | DeltasLength | LimitSubscript | LimitIndex | LimitTuple | PdfNan | CumsumNan
   (* evaluation points, contours *)
-  | NonFinitePdf | NonFiniteCdf | Not2D (k : contour2d) | ModelType.
+  | NonFinitePdf | NonFiniteCdf | NonFiniteTransformedCdf | NonFiniteEmpiricalCdf | Not2D (k : contour2d) | ModelType.
 
 (* the function whose body raises (innermost frame inside virocon) *)
 Inductive site :=
   | GHM_check_dist_descriptions | CondDist_init | GHM_init
   | GHM_check_and_fill_fit_desc | GHM_fit | Dist_fit | EW_fit_lsq | Dist_fit_lsq
   | Slicer_init | PPI_init | Slicer__slice | Slicer_slice_ | PPI__slice
-  | HDC_check_grid | HDC_compute | C2D_compute (k : contour2d) | IFORM_init | GHM_pdf | MM_cdf.
+  | HDC_check_grid | HDC_compute | HDC_cumsum_biggest_until | C2D_compute (k : contour2d) | IFORM_init
+  | GHM_pdf | MM_cdf | TM_cdf | TM_empirical_cdf.
 
 Definition exc_of (t : tag) : exc :=
   match t with
@@ -62,7 +63,7 @@ Definition site_of (t : tag) : site :=
   | DataDimension => GHM_fit
   | UnknownMethod | MethodNotString => Dist_fit
   | LsqNotImplemented => Dist_fit_lsq
-  | UnknownWeights | LsqFixedNotImplemented => EW_fit_lsq
+  | UnknownWeights | WeightsNonFinite | LsqFixedNotImplemented => EW_fit_lsq
   | UnknownKwarg => Slicer_init
   | ReferenceNotCallable => PPI_init
   | UnknownReference | ReferenceType => Slicer__slice
@@ -70,8 +71,11 @@ Definition site_of (t : tag) : site :=
   | NoIntervals => PPI__slice
   | LimitsLength | DeltasLength | LimitSubscript | LimitIndex => HDC_check_grid
   | LimitTuple | PdfNan => HDC_compute
+  | CumsumNan => HDC_cumsum_biggest_until
   | NonFinitePdf => GHM_pdf
   | NonFiniteCdf => MM_cdf
+  | NonFiniteTransformedCdf => TM_cdf
+  | NonFiniteEmpiricalCdf => TM_empirical_cdf
   | Not2D k => C2D_compute k
   | ModelType => IFORM_init
   end.
@@ -223,7 +227,8 @@ Definition validate_model : list desc -> result := validate_model_gen true.
 
 (* ------------------------------------------------------------------ fit *)
 Inductive methodv := MMle | MLsq | MWlsq | MUnknown | MNotString.
-Inductive weightsv := WNone | WLinear | WQuadratic | WCubic | WUnknownStr | WArray | WScalar.
+(* WArray: a finite array; WArrayNonFinite: an array with nan / inf entries; WScalar: not iterable *)
+Inductive weightsv := WNone | WLinear | WQuadratic | WCubic | WUnknownStr | WArray | WArrayNonFinite | WScalar.
 
 Record fitdesc := mkfit {
   f_has_method : bool;
@@ -246,6 +251,8 @@ Definition eff_fitdesc (fi : fit_input) (i : nat) : fitdesc :=
 
 Definition weights_known (w : weightsv) : bool :=
   match w with WUnknownStr | WScalar => false | _ => true end.
+Definition weights_finite (w : weightsv) : bool :=
+  match w with WArrayNonFinite => false | _ => true end.
 
 (* ExponentiatedWeibullDistribution._fit_lsq: nothing fixed, or delta alone *)
 Definition lsq_fixed_ok (fixed : list string) : bool :=
@@ -261,6 +268,7 @@ Definition dispatch (i : nat) (fam : family) (fixed : list string) (m : methodv)
       match fam with
       | ExpWeibull =>
           if negb (weights_known w) then Err UnknownWeights i
+          else if negb (weights_finite w) then Err WeightsNonFinite i     (* np.asarray_chkfinite(weights) *)
           else if lsq_fixed_ok fixed then Ok else Err LsqFixedNotImplemented i
       | _ => Err LsqNotImplemented i
       end
@@ -302,18 +310,35 @@ Definition validate_fit (ds : list desc) (fi : fit_input) : result :=
       (first_err_from 0 (fit_dim ds fi) ds)).
 
 (* ------------------------------------------------------------------ evaluation points *)
+(* the entry points that check their points with np.asarray_chkfinite: GlobalHierarchicalModel.pdf (also reached
+   through TransformedModel.pdf), MultivariateModel.cdf, TransformedModel.cdf, TransformedModel.empirical_cdf *)
+Inductive evalpoint := EvPdf | EvCdf | EvTransformedPdf | EvTransformedCdf | EvEmpiricalCdf.
+Definition nonfinite_tag (e : evalpoint) : tag :=
+  match e with
+  | EvPdf | EvTransformedPdf => NonFinitePdf
+  | EvCdf => NonFiniteCdf
+  | EvTransformedCdf => NonFiniteTransformedCdf
+  | EvEmpiricalCdf => NonFiniteEmpiricalCdf
+  end.
+
 Section Points.
   Variable T : Type.
   Variable finite : T -> bool.
-  (* np.asarray_chkfinite in pdf / cdf *)
   Definition all_finite (pts : list (list T)) : bool := forallb (forallb finite) pts.
-  Definition validate_points (for_cdf : bool) (pts : list (list T)) : result :=
-    if all_finite pts then Ok else Err (if for_cdf then NonFiniteCdf else NonFinitePdf) 0.
+  Definition validate_points (e : evalpoint) (pts : list (list T)) : result :=
+    if all_finite pts then Ok else Err (nonfinite_tag e) 0.
+  (* HighestDensityContour.cumsum_biggest_until: np.isnan(flat_array).any() *)
+  Variable isnan : T -> bool.
+  Definition validate_no_nan (cells : list T) : result :=
+    if existsb isnan cells then Err CumsumNan 0 else Ok.
 End Points.
 
 Definition is_finite (x : float) : bool :=
   match classify x with NaN | PInf | NInf => false | _ => true end.
+Definition is_nan (x : float) : bool :=
+  match classify x with NaN => true | _ => false end.
 Definition validate_points_f := validate_points float is_finite.
+Definition validate_no_nan_f := validate_no_nan float is_nan.
 
 (* ------------------------------------------------------------------ highest density contour *)
 Inductive limentry := LScalar | LTuple (n : nat).     (* entry of limits: not iterable / iterable of List.length n *)
@@ -362,7 +387,7 @@ Inductive contour_req :=
 Record scenario := mkscenario {
   sc_descs : list desc;
   sc_fit : option fit_input;
-  sc_points : option (bool * list (list float));   (* (cdf?, points) *)
+  sc_points : option (evalpoint * list (list float));   (* entry point, points *)
   sc_contour : option contour_req
 }.
 
